@@ -2,3 +2,7 @@ import Qv.Model.C14
 import Qv.Proofs.C14
 import Qv.Props.C14
 import Qv.Drv.C14
+import Qv.Model.C15
+import Qv.Drv.C15
+import Qv.Proofs.C15
+import Qv.Props.C15
